@@ -176,6 +176,11 @@ func decryptECMult(
 	compressed bool,
 	err error,
 ) {
+	// The flag byte of an EC-multiplied key holds only the compression bit 0b00100000 and the
+	// lot/sequence bit 0b00000100. Every other bit (including the two top bits) must be zero.
+	if decodedEncryptedKey[2]&0b11011011 != 0 {
+		return nil, false, fmt.Errorf("%w: invalid flag byte for an ecMultiply key", ErrInvalidEncryptedKey)
+	}
 	compressed = decodedEncryptedKey[2]&0b00100000 != 0
 	useLotSequence := decodedEncryptedKey[2]&0b00000100 != 0
 	addressHash := decodedEncryptedKey[3:7]
